@@ -105,6 +105,8 @@ def make_pool():
     P["tempi_r"] = a([60.0, 120.0])
     P["tempi_e"] = a([64.0, 120.0])
     P["kw_tol"] = {"tol": 0.1}
+    P["tempi_r0"] = a([80.0, 0.0])                        # single-tempo annotation: the second slot is never written
+    P["tempi_e0"] = a([30.0, 200.0])
     # alignment
     P["al_r"] = a([0.5, 1.0, 2.0])
     P["al_e"] = a([0.5, 1.25, 2.5])
@@ -247,6 +249,8 @@ def descriptors():
     d("onset.evaluate", lambda P: onset.evaluate(P["onsets_r"], P["onsets_e"], window=0.1), ["onsets_r", "onsets_e"])
     # tempo
     d("tempo.detection", lambda P: tempo.detection(P["tempi_r"], 0.25, P["tempi_e"]), ["tempi_r", "tempi_e"])
+    d("tempo.detection[zero-ref]", lambda P: tempo.detection(P["tempi_r0"], 0.25, P["tempi_e0"]),
+      ["tempi_r0", "tempi_e0"], risky=True)
     d("tempo.validate", lambda P: tempo.validate(P["tempi_r"], 0.25, P["tempi_e"]), ["tempi_r", "tempi_e"])
     d("tempo.validate_tempi", lambda P: tempo.validate_tempi(P["tempi_r"]), ["tempi_r"])
     d("tempo.evaluate", lambda P: tempo.evaluate(P["tempi_r"], 0.25, P["tempi_e"], **P["kw_tol"]),
